@@ -84,6 +84,26 @@ def _run_component(args):
     return d
 
 
+def _resolve_any_of(results):
+    """Existential alternatives (role bindings): keep, per obligation, the alternative with the fewest failures."""
+    keep, groups = [], {}
+    for r in results:
+        ob = registry.OBLIGATIONS[r["idx"]]
+        if not ob.any_of:
+            keep.append(r)
+            continue
+        groups.setdefault((r["idx"], json.dumps(r["preset"].get(ob.any_of[0]))), []).append(r)
+    by_ob = {}
+    for (idx, alt), rs in groups.items():
+        bad = sum(len(r["errors"]) + sum(1 for i in r["instances"] if i["status"] != "proved") for r in rs)
+        empty = sum(1 for r in rs if not r["instances"])
+        by_ob.setdefault(idx, []).append((bad + empty, alt, rs))
+    for idx, alts in by_ob.items():
+        alts.sort(key=lambda t: (t[0], t[1]))
+        keep.extend(alts[0][2])
+    return keep
+
+
 def load_known():
     p = os.path.join(ROOT, "known_findings.json")
     if not os.path.exists(p):
@@ -135,12 +155,16 @@ def run_property(prop, tier, seed, level, explanation="", trusted_base=(), worke
     comps = [(i, c) for i, c in enumerate(registry.COMPONENTS) if prop in c.props and (c.tier == "quick" or tier == "thorough")]
     jobs = []
     for i, ob in obs:
-        if ob.split:
-            name, options = ob.split
-            for o in options:
-                jobs.append((i, {name: o}))
-        else:
-            jobs.append((i, {}))
+        alts = [{}]
+        if ob.any_of:
+            alts = [{ob.any_of[0]: o} for o in ob.any_of[1]]
+        for alt in alts:
+            if ob.split:
+                name, options = ob.split
+                for o in options:
+                    jobs.append((i, {name: o, **alt}))
+            else:
+                jobs.append((i, dict(alt)))
     workers = workers or min(16, max(1, len(jobs) + len(comps)))
     results, cresults = [], []
     if jobs or comps:
@@ -150,6 +174,7 @@ def run_property(prop, tier, seed, level, explanation="", trusted_base=(), worke
             results = [f.result() for f in futs]
             cresults = [f.result() for f in cfuts]
 
+    results = _resolve_any_of(results)
     violations, known_hits, undecided, crashes = [], [], [], []
     n_ob = n_dis = 0
     backends = {}
@@ -157,6 +182,10 @@ def run_property(prop, tier, seed, level, explanation="", trusted_base=(), worke
     notes, functions_seen, samples = [], {}, []
     declared_functions = set()
     replay_dir = os.path.join(ROOT, "replay", prop)
+    if os.path.isdir(replay_dir):
+        for f in os.listdir(replay_dir):
+            if f.endswith(".json"):
+                os.unlink(os.path.join(replay_dir, f))
 
     def record_violation(key_obj, text, payload, confirmed):
         for e in known["findings"]:
